@@ -34,6 +34,27 @@ type Entry struct {
 	Recovers bool   `json:"recovers"`
 }
 
+// Hold: a function that takes a mutex field of its receiver (x.<mutex>.Lock() / RLock()) and the functions of
+// the same package it calls, directly or through other functions of the package, while it holds it
+// (statements after the Lock call up to the matching explicit Unlock at the same level, or to the end of
+// the function when the Unlock is deferred).
+type Hold struct {
+	Site    string   `json:"site"`
+	Fn      string   `json:"fn"`
+	Mutex   string   `json:"mutex"`
+	Write   bool     `json:"write"`
+	Callees []string `json:"callees"`
+	Paths   []string `json:"paths"` // for each callee, one call path "a > b > c"
+}
+
+// Locker: a function whose own body takes that mutex
+type Locker struct {
+	Dir   string `json:"dir"`
+	Fn    string `json:"fn"`
+	Mutex string `json:"mutex"`
+	Write bool   `json:"write"`
+}
+
 type fn struct {
 	dir  string
 	decl *ast.FuncDecl
@@ -160,6 +181,218 @@ func serviceOf(rel string) string {
 	return "other"
 }
 
+type srcFile struct {
+	rel, dir string
+	file     *ast.File
+}
+
+// mutexCall recognises <recv>.<mutex>.Lock|RLock|Unlock|RUnlock() and returns (mutex field, method)
+func mutexCall(e ast.Expr) (string, string) {
+	c, ok := e.(*ast.CallExpr)
+	if !ok || len(c.Args) != 0 {
+		return "", ""
+	}
+	sel, ok := c.Fun.(*ast.SelectorExpr)
+	if !ok {
+		return "", ""
+	}
+	switch sel.Sel.Name {
+	case "Lock", "RLock", "Unlock", "RUnlock":
+	default:
+		return "", ""
+	}
+	inner, ok := sel.X.(*ast.SelectorExpr)
+	if !ok {
+		return "", ""
+	}
+	if _, ok := inner.X.(*ast.Ident); !ok {
+		return "", ""
+	}
+	return inner.Sel.Name, sel.Sel.Name
+}
+
+// funcID names a function of a package: "name" for a plain function, "Type.name" for a method
+func funcID(fd *ast.FuncDecl) string {
+	if fd.Recv == nil || len(fd.Recv.List) == 0 {
+		return fd.Name.Name
+	}
+	t := fd.Recv.List[0].Type
+	if st, ok := t.(*ast.StarExpr); ok {
+		t = st.X
+	}
+	if id, ok := t.(*ast.Ident); ok {
+		return id.Name + "." + fd.Name.Name
+	}
+	return fd.Name.Name
+}
+
+func recvName(fd *ast.FuncDecl) (string, string) {
+	if fd.Recv == nil || len(fd.Recv.List) == 0 || len(fd.Recv.List[0].Names) == 0 {
+		return "", ""
+	}
+	id := funcID(fd)
+	typ := id[:strings.Index(id+".", ".")]
+	return fd.Recv.List[0].Names[0].Name, typ
+}
+
+// callsIn lists the same-package functions called inside n, which is part of fd: plain calls f(...) of package
+// functions, and method calls r.m(...) on fd's own receiver r (a method of the same type). Calls on other
+// values (db.Close(), rows.Next()) are calls into other types and are not followed.
+func callsIn(fd *ast.FuncDecl, n ast.Node, known map[string]*ast.FuncDecl) []string {
+	seen := map[string]bool{}
+	var out []string
+	rname, rtype := recvName(fd)
+	ast.Inspect(n, func(x ast.Node) bool {
+		c, ok := x.(*ast.CallExpr)
+		if !ok {
+			return true
+		}
+		id := ""
+		switch f := c.Fun.(type) {
+		case *ast.Ident:
+			id = f.Name
+		case *ast.SelectorExpr:
+			if xi, ok := f.X.(*ast.Ident); ok && rname != "" && xi.Name == rname {
+				id = rtype + "." + f.Sel.Name
+			}
+		}
+		if id != "" && known[id] != nil && !seen[id] {
+			seen[id] = true
+			out = append(out, id)
+		}
+		return true
+	})
+	return out
+}
+
+func lockFacts(fset *token.FileSet, files []srcFile) ([]Hold, []Locker) {
+	holds := []Hold{}
+	lockers := []Locker{}
+	byDir := map[string][]srcFile{}
+	for _, f := range files {
+		byDir[f.dir] = append(byDir[f.dir], f)
+	}
+	dirs := []string{}
+	for d := range byDir {
+		dirs = append(dirs, d)
+	}
+	sort.Strings(dirs)
+	for _, dir := range dirs {
+		known := map[string]*ast.FuncDecl{}
+		for _, f := range byDir[dir] {
+			for _, d := range f.file.Decls {
+				if fd, ok := d.(*ast.FuncDecl); ok && fd.Body != nil {
+					known[funcID(fd)] = fd
+				}
+			}
+		}
+		// lockers: the function's own body takes the mutex
+		for _, f := range byDir[dir] {
+			for _, d := range f.file.Decls {
+				fd, ok := d.(*ast.FuncDecl)
+				if !ok || fd.Body == nil {
+					continue
+				}
+				got := map[string]bool{}
+				ast.Inspect(fd.Body, func(x ast.Node) bool {
+					if es, ok := x.(*ast.ExprStmt); ok {
+						if mu, m := mutexCall(es.X); m == "Lock" || m == "RLock" {
+							key := mu + "/" + m
+							if !got[key] {
+								got[key] = true
+								lockers = append(lockers, Locker{Dir: dir, Fn: funcID(fd), Mutex: mu, Write: m == "Lock"})
+							}
+						}
+					}
+					return true
+				})
+				// holds: for every Lock statement in a statement list, the region it covers
+				var walk func(list []ast.Stmt)
+				walk = func(list []ast.Stmt) {
+					for i, st := range list {
+						if es, ok := st.(*ast.ExprStmt); ok {
+							if mu, m := mutexCall(es.X); m == "Lock" || m == "RLock" {
+								un := "Unlock"
+								if m == "RLock" {
+									un = "RUnlock"
+								}
+								// region: the following statements of this list, up to an explicit matching unlock
+								// statement at this level; with a deferred unlock (or none at this level) to the end
+								end := len(list)
+								for j := i + 1; j < len(list); j++ {
+									if es2, ok := list[j].(*ast.ExprStmt); ok {
+										if mu2, m2 := mutexCall(es2.X); mu2 == mu && m2 == un {
+											end = j
+											break
+										}
+									}
+								}
+								direct := []string{}
+								seen := map[string]bool{}
+								for _, r := range list[i+1 : end] {
+									if ds, ok := r.(*ast.DeferStmt); ok {
+										if mu2, m2 := mutexCall(ds.Call); mu2 == mu && m2 == un {
+											continue
+										}
+									}
+									for _, c := range callsIn(fd, r, known) {
+										if !seen[c] {
+											seen[c] = true
+											direct = append(direct, c)
+										}
+									}
+								}
+								// transitive closure with one path per callee
+								path := map[string]string{}
+								queue := []string{}
+								for _, c := range direct {
+									path[c] = funcID(fd) + " > " + c
+									queue = append(queue, c)
+								}
+								for len(queue) > 0 {
+									c := queue[0]
+									queue = queue[1:]
+									for _, c2 := range callsIn(known[c], known[c].Body, known) {
+										if _, ok := path[c2]; !ok {
+											path[c2] = path[c] + " > " + c2
+											queue = append(queue, c2)
+										}
+									}
+								}
+								callees := []string{}
+								for c := range path {
+									callees = append(callees, c)
+								}
+								sort.Strings(callees)
+								paths := []string{}
+								for _, c := range callees {
+									paths = append(paths, path[c])
+								}
+								pos := fset.Position(st.Pos())
+								holds = append(holds, Hold{Site: fmt.Sprintf("%s:%d", f.rel, pos.Line), Fn: funcID(fd), Mutex: mu, Write: m == "Lock", Callees: callees, Paths: paths})
+							}
+						}
+						// descend into nested statement lists
+						ast.Inspect(st, func(x ast.Node) bool {
+							if b, ok := x.(*ast.BlockStmt); ok {
+								walk(b.List)
+								return false
+							}
+							if cc, ok := x.(*ast.CaseClause); ok {
+								walk(cc.Body)
+								return false
+							}
+							return true
+						})
+					}
+				}
+				walk(fd.Body.List)
+			}
+		}
+	}
+	return holds, lockers
+}
+
 func main() {
 	if len(os.Args) < 2 {
 		fmt.Fprintln(os.Stderr, "usage: extract_c12 <repo>")
@@ -189,6 +422,13 @@ func main() {
 		})
 	}
 	sort.Slice(files, func(i, j int) bool { return files[i].rel < files[j].rel })
+	files2 := func(in []pf) []srcFile {
+		out := []srcFile{}
+		for _, f := range in {
+			out = append(out, srcFile{f.rel, f.dir, f.file})
+		}
+		return out
+	}
 	for _, f := range files {
 		for _, d := range f.file.Decls {
 			if fd, ok := d.(*ast.FuncDecl); ok {
@@ -260,6 +500,7 @@ func main() {
 			return true
 		})
 	}
-	out, _ := json.MarshalIndent(map[string]interface{}{"entries": entries}, "", " ")
+	holds, lockers := lockFacts(fset, files2(files))
+	out, _ := json.MarshalIndent(map[string]interface{}{"entries": entries, "holds": holds, "lockers": lockers}, "", " ")
 	fmt.Println(string(out))
 }
